@@ -829,6 +829,33 @@ def targeted_sets(seed):
                'alpha': M([('t', M([('__include', S('base:/')),
                                      ('l', M([('@before last', M([('m', M([('a', w()), ('b', w())]))]))]))])),
                            ('u', M([('__include', S('base:/l/@last'))]))])}))
+    # 14. many dependencies at ONE node (the per-path list of InsertByPriority grows beyond the sizes at which library
+    #     sorts switch algorithm: 16/17, 32/33, 64): long patch lists whose entries are order-sensitive (appends to one
+    #     list, repeated writes to one key), mixed with an include and with pending children that carry directives
+    shared = M([('v', S('s')), ('w', L([S('s0')]))])
+    for npatch in (15, 16, 17, 18, 24, 33, 40, 65):
+        for extra in ('bare', 'include', 'children'):
+            plist = []
+            for i in range(npatch):
+                form = r.choice(['next', 'next', 'set', 'append-str'])
+                if form == 'next':
+                    plist.append(M([('log/@next', S('n%d' % i))]))
+                elif form == 'set':
+                    plist.append(M([('last', S('v%d' % i))]))
+                else:
+                    plist.append(M([('str/+', S('%d,' % i))]))
+            body = [('log', L([S('start')])), ('last', S('none')), ('str', S(''))]
+            if extra == 'include':
+                body = [('__include', S('/shared'))] + body
+            if extra == 'children':
+                body += [('c%d' % j, M([('__include', S('/shared')), ('own', S('%d' % j))])) for j in range(r.choice([1, 3, 17]))]
+            body.append(('__patch', L(plist)))
+            out.append(('many-deps:%d:%s' % (npatch, extra), {'alpha': M([('shared', shared), ('node', M(body))])}))
+    #     the same through references: a patch list of 20 references to literal patch maps elsewhere in the document
+    pm = [('p%02d' % i, M([('log/@next', S('r%d' % i)), ('last', S('r%d' % i))])) for i in range(20)]
+    out.append(('many-deps:20:references', {'alpha': M([('pats', M(pm)),
+               ('node', M([('log', L([])), ('last', S('none')),
+                           ('__patch', L([S('/pats/p%02d' % i) for i in range(20)]))]))])}))
     return out
 
 
